@@ -20,6 +20,7 @@ import simprocesd.model.resource_manager as resource_manager  # noqa: E402
 from simprocesd.model.factory_floor.asset import Asset  # noqa: E402
 
 TICK = 16.0
+_tick = [16.0]
 STEP_LIMIT = 20000
 
 
@@ -129,6 +130,7 @@ class Runner:
     def reset(self):
         self.seed = 0
         self.wmod = 0
+        self.tick = TICK
         self.scripts = {}
         self.results = []
         self.steps = 0
@@ -216,7 +218,7 @@ class Runner:
         op = toks[0]
         env = self.env
         if op in ('sched', 'schedrel'):
-            t = int(toks[1]) / TICK
+            t = int(toks[1]) / self.tick
             if op == 'schedrel':
                 t = env.now + t
             env.schedule_event(t, self.real_asset(int(toks[2])), ScriptAction(self, int(toks[3])),
@@ -246,6 +248,8 @@ class Runner:
             self.out.append(f'scenario {toks[1]}')
         elif k == 'seed':
             self.seed, self.wmod = int(toks[1]), int(toks[2])
+        elif k == 'tick':
+            self.tick = float(toks[1])
         elif k == 'idoff':
             Asset._id_counter += int(toks[1])
         elif k == 'script':
@@ -265,10 +269,10 @@ class Runner:
                 except Exception:
                     pass
         elif k == 'run':
-            d = int(toks[1]) / TICK
+            d = int(toks[1]) / self.tick
             self.steps = 0
             try:
-                self.out.append(f'runbegin {ticks(self.env.now)} {toks[1]}')
+                self.out.append(f'runbegin {ticks(self.env.now)} {ticks(d)}')
                 self.system.simulate(d, print_summary=False)
             except StepLimit:
                 self.out.append('abort StepLimit')
